@@ -40,7 +40,7 @@ pub struct Chan<const BUFFER_SIZE: usize, const MAX_STREAMS: usize> {
     pub eff: Ghost<Seq<nat>>,
     pub q_resume: Ghost<Seq<u64>>,
     pub suspensions: Ghost<nat>,
-}
+/*EXTRA_ATOMIC_FIELDS*/}
 impl<const BUFFER_SIZE: usize, const MAX_STREAMS: usize> Chan<BUFFER_SIZE, MAX_STREAMS> {
     /// capacity in use: KIND_CAPACITY_DOC
     pub open spec fn used(&self) -> int { KIND_USED }
@@ -463,10 +463,35 @@ def channel_fns(kind, file, impl_p, impl_c, chan_field):
     return fns
 
 
+KNOWN_FIELDS = {"streams_manager", "channel", "container", "_phantom", "_phanrom", "tx", "rx"}
+
+
+def spec_with_real_atomics(spec, file, struct):
+    """the channel struct's ATOMIC fields the contract does not know (none on the unchanged tree) become plain atomic cells with an unconstrained value in the
+    verified struct (A-model reading: whatever other threads made of them), so an entry point whose answer depends on one fails its postcondition instead
+    of failing to type-check"""
+    def build(repo):
+        import os
+        from engine.common import read
+        path = os.path.join(repo, file)
+        if not os.path.exists(path):
+            raise Undecided(f"{file} not found")
+        fields = lx.struct_fields(read(path), struct)
+        if fields is None:
+            raise Undecided(f"{file}: struct {struct} not found")
+        extra = ""
+        for name, ty in fields:
+            mt = re.fullmatch(r"(?:std::sync::atomic::)?(AtomicU32|AtomicU64|AtomicUsize|AtomicBool)", ty)
+            if mt and name not in KNOWN_FIELDS:
+                extra += f"    pub {name}: {mt.group(1)},\n"
+        return spec.replace("/*EXTRA_ATOMIC_FIELDS*/", extra)
+    return build
+
+
 def mk_unit(kind, file, struct, chan_field, container_trusted):
     impl_p = r"ChannelProducer\s*<[^{]*?>\s*for\s+%s\s*<[^{]*(?=\{)" % struct
     impl_c = r"ChannelConsumer\s*<[^{]*?>\s*for\s+%s\s*<[^{]*(?=\{)" % struct
-    return Unit("uni_" + kind, channel_fns(kind, file, impl_p, impl_c, chan_field), spec=spec_for(kind),
+    return Unit("uni_" + kind, channel_fns(kind, file, impl_p, impl_c, chan_field), spec=spec_with_real_atomics(spec_for(kind), file, struct),
                 trusted=container_trusted + ["wake_stream / slot_set / suspend_point: shims over the channel's ghost state (streams manager: units streams_manager / streams_bookkeeping + Kani streams_manager)"],
                 assumptions=["S-model between suspension points; at the async setter's .await the environment acts as the kind allows (see suspend_point)",
                              "the container contracts are imported, not re-proved here (modular verification: callers see the callee's contract only)",
